@@ -3,3 +3,7 @@ import Bw.Props.C08
 #print axioms Bw.Props.C08.lp_first
 #print axioms Bw.Props.C08.blank_never
 #print axioms Bw.Props.C08.bad_regex_errs
+#print axioms Bw.Props.C08.mem_zipIdx
+#print axioms Bw.Props.C08.zipIdx_mem
+#print axioms Bw.Props.C08.lp_block_iff
+#print axioms Bw.Props.C08.lp_block_viol
